@@ -226,6 +226,25 @@ Subset extensions used there (those that change how a body is read are enabled p
   has to prove that the `break` is reached within it and that more fuel changes nothing (`src_jump_fuel_suffices`).  An
   untyped state variable (`steps = 62`) gets the integer type that type-checks the body (signed and unsigned candidates; all
   successful candidates must produce the same text).
+Round 4, G15 (the rest of the multiplication layer, C03; all in lean/CB/Gen/MulRows.lean, whose earlier definitions are unchanged):
+`impl Limb { overflowing_add, shr }` (src/limb/{add,shr}.rs; namespace CB.Gen.MulRows.LimbSq — a unit of its own in front of the
+slice functions, because the Shifts file is generated later), with which `schoolbook_squaring` (five loops: `_loop1` rows from
+`i = 1`, `_loop2` inner `while j < i`, `_loop3` / `_loop4` the doubling of `lo` / `hi`, `_loop5` the diagonal) translates;
+the const-generic wrappers `uint_mul_limbs`, `uint_square_limbs` of src/uint/mul.rs (namespace CB.Gen.MulRows.Wrap) and the
+non-`const` `adc_mul_limbs` of src/uint/mul/karatsuba.rs (namespace CB.Gen.MulRows.Karatsuba).  Subset extensions:
+  `x.overflowing_add(y)` on a `Limb` receiver is the translated `Limb::overflowing_add` when a unit in reach has one (else the
+  builtin word form, as before);
+  a call as a STATEMENT `f(a, &mut x.limbs, &mut y.limbs);` (top level of a function only) of a translated function WITHOUT a
+  return type (G10's convention: it returns the final values of its `&mut [Limb]` parameters, registered in `MUTOUT`): the
+  returned slices are written back to `x`, `y` (`let p := f a x y; let x1 := p.1; let y1 := p.2`);
+  unit option `generic2='RHS_LIMBS'` (with `free_generic`): a SECOND const generic — an explicit `Nat` argument after `LIMBS` of
+  the functions whose signature mentions it, `Uint<RHS_LIMBS>` is a limb list, `Uint::<RHS_LIMBS>::ZERO` is
+  `List.replicate RHS_LIMBS 0#64` (the parser now keeps the turbofish arguments of a path: `('path', path, [ids])`; a turbofish
+  naming anything but the two generics is unsupported); such a function cannot be called from translated code;
+  unit option `nonconst`: plain `fn`s are found too (`FN_NONCONST`; a return type is required; `want` picks `adc_mul_limbs`, not
+  its `verif_` forwarder); unit option `panic_guards`: `if cond { panic!(".."); }` guards are dropped and recorded as
+  `-- the source panics if: ..` (a precondition of the bridge theorems) also for functions WITH a return type (G11's `slices`
+  convention: `adc_mul_limbs .. : out' × carry`).
 """
 import os, re, sys, json
 
@@ -245,6 +264,11 @@ OPTS = {}
 # functions with `&mut [Limb]` parameters: (namespace, name) -> positions of those parameters; the translation returns
 # the new values of those slices, in parameter order, followed by the function's result
 MUTP = {}
+# (G10's convention) functions WITHOUT a return type that return the final values of their `&mut [Limb]` parameters:
+# (namespace, name) -> positions of those parameters (needed by a STATEMENT call `f(a, &mut x.limbs);`)
+MUTOUT = {}
+# functions with a SECOND const generic (unit option `generic2`): not callable from translated code
+GENERIC2_FNS = set()
 
 
 # ------------------------------------------------------------------ tokenizer
@@ -468,10 +492,11 @@ class P:
             return self.if_expr()
         if tok[0] == 'id':
             path = [self.eat()[1]]
+            targs = None
             while self.at('::'):
                 self.eat()
                 if self.at('<'):
-                    self.skip_generic_args()       # turbofish `Uint::<LIMBS>::new`
+                    targs = self.skip_generic_args()       # turbofish `Uint::<LIMBS>::new`
                     continue
                 path.append(self.eat('id')[1])
             if self.at('('):
@@ -480,6 +505,8 @@ class P:
                 return self.struct_lit(path[0])
             if len(path) == 1:
                 return ('var', path[0])
+            if targs:
+                return ('path', path, targs)       # `Uint::<RHS_LIMBS>::ZERO`: the turbofish arguments (identifiers) kept
             return ('path', path)
         raise Unsupported('primary ' + str(tok))
 
@@ -527,8 +554,11 @@ class P:
         """`<LIMBS>` / `<{ N }>` after `::` in a path: skipped (the limb count of the callee is the caller's)"""
         self.eat('op', '<')
         depth = 1
+        seen = []
         while depth:
             tok = self.eat()
+            if tok[0] == 'id':
+                seen.append(tok[1])
             if tok[0] == 'eof':
                 raise Unsupported('unterminated generic arguments')
             if tok == ('op', '<'):
@@ -537,6 +567,7 @@ class P:
                 depth -= 1
             elif tok == ('op', '>>'):
                 depth -= 2
+        return seen
 
     def field_indexed_assign(self, stmts):
         """`name.limbs[idx] op= e;` (a `Uint` is the list of its limbs) -> ('assign_idx', name, idx, op, e)"""
@@ -761,6 +792,11 @@ class P:
                     self.eat('op', ';')
                     stmts.append(('assign_tuple', e[1], rhs))
                     continue
+                if e[0] == 'call' and self.at(';'):
+                    # a call as a STATEMENT: `schoolbook_squaring(limbs, &mut lo.limbs, &mut hi.limbs);`
+                    self.eat()
+                    stmts.append(('callstmt', e))
+                    continue
                 raise Unsupported('statement at ' + str(self.peek()))
 
     def if_(self):
@@ -968,6 +1004,7 @@ FN_ANY = re.compile(r'((?:\s*#\[[^\]]*\]\s*)*)\s*(?:pub(?:\([a-z]+\))?\s+)?const
 FN_GEN = re.compile(r'((?:\s*#\[[^\]]*\]\s*)*)\s*(?:pub(?:\([a-z]+\))?\s+)?const\s+fn\s+(\w+)\s*(?:<[^>()]*>)?\s*\(([^)]*)\)\s*->\s*([^{]+)\{')
 
 
+FN_NONCONST = re.compile(r'((?:\s*#\[[^\]]*\]\s*)*)\s*(?:pub(?:\([a-z]+\))?\s+)?(?:const\s+)?fn\s+(\w+)\s*\(([^)]*)\)\s*->\s*([^{]+)\{')
 FN_GEN_HEAD = re.compile(r'((?:\s*#\[[^\]]*\]\s*)*)\s*(?:pub(?:\([a-z]+\))?\s+)?const\s+fn\s+(\w+)\s*(?:<[^>()]*>)?\s*\(')
 
 
@@ -1006,7 +1043,7 @@ def find_functions(src, private=False):
                 k2 += 1
             yield m.group(1), m.group(2), params, r.group(1).strip(), src[r.end():k2 - 1]
         return
-    for m in (FN_ANY if private == 'any' else FN_PRIV if private else FN).finditer(src):
+    for m in (FN_NONCONST if OPTS.get('nonconst') else FN_ANY if private == 'any' else FN_PRIV if private else FN).finditer(src):
         depth, j = 1, m.end()
         while depth and j < len(src):
             depth += {'{': 1, '}': -1}.get(src[j], 0)
@@ -1070,6 +1107,8 @@ def ty_of(t, self_ty):
         return 'uint'        # a slice `&[Limb]` / `&mut [Limb]`: the list of its limbs (`.len()` is `.length`)
     if OPTS.get('free_generic') and re.match(r'Uint\s*<\s*LIMBS\s*>$', t):
         return 'uint'
+    if OPTS.get('generic2') and re.match(r'Uint\s*<\s*' + OPTS['generic2'] + r'\s*>$', t):
+        return 'uint'        # a `Uint<RHS_LIMBS>`: the list of its limbs (its count is the second explicit `Nat` argument)
     if OPTS.get('free_generic') and re.match(r'Odd\s*<\s*Uint\s*<\s*LIMBS\s*>\s*>$', t):
         return 'odduint'     # `Odd<Uint<LIMBS>>`: a newtype over the limb list, `.0` is the value
     m = re.match(r'ConstCtOption\s*<\s*(.+?)\s*>$', t)
@@ -1295,6 +1334,11 @@ class Gen:
                 return '63#32', 32
             if len(p) == 2 and p[0] == 'Self' and self.self_ty == 'Limb' and p[1] == 'BITS':
                 return '64#32', 32
+            if (len(e) > 2 and OPTS.get('generic2') and e[2] == [OPTS['generic2']] and p == ['Uint', 'ZERO']
+                    and env.get(OPTS['generic2'], (None, None))[1] == 'nat'):
+                return f'(List.replicate {env[OPTS["generic2"]][0]} 0#64)', 'uint'      # `Uint::<RHS_LIMBS>::ZERO`
+            if len(e) > 2 and e[2] != [self.generic]:
+                raise Unsupported('turbofish ' + '::'.join(p))
             if (len(p) == 2 and p[0] in ('Self', 'Uint') and self.self_ty == 'Uint' and self.generic
                     and env.get(self.generic, (None, None))[1] == 'nat'):
                 if p[1] == 'ZERO':
@@ -1543,6 +1587,8 @@ class Gen:
                 return f'({r} {dict(wrapping_add="+", wrapping_sub="-", wrapping_mul="*")[name]} {b})', tr
             if name == 'wrapping_neg':
                 return f'(-{r})', tr
+            if name == 'overflowing_add' and tr == 'wrap:1' and len(args) == 1 and self.lookup(name, 'limb')[1] is not None:
+                return self.call(name, [recv] + args, env, 'limb')     # `Limb::overflowing_add` (src/limb/add.rs), translated
             if name == 'overflowing_add':
                 b, tb = self.ex(args[0], env, tr)
                 return f'(({r} + {b}), decide (({r} + {b}) < {r}))', (tr, 'bool')
@@ -1663,6 +1709,8 @@ class Gen:
             raise Unsupported('call to untranslated ' + name)
         if (ns, name) in ASSERTING:
             raise Unsupported('call to a function with assert! (' + name + ')')
+        if (ns, name) in GENERIC2_FNS:
+            raise Unsupported('call to a function with two const generics (' + name + ')')
         ptys, rty = sig
         if len(ptys) != len(args):
             raise Unsupported('arity ' + name)
@@ -1829,6 +1877,35 @@ class Gen:
                 self.do_if(st[1], st[2], st[3], env, lines)
             elif k == 'assign_tuple':
                 self.do_assign_tuple(st[1], st[2], env, lines)
+            elif k == 'callstmt':
+                # `f(a, &mut x.limbs, &mut y.limbs);` with f a translated function WITHOUT a return type: f returns the final
+                # values of its `&mut` slice parameters (in parameter order), which are written back to `x`, `y`
+                e = st[1]
+                if declared is not None or len(e[1]) != 1:
+                    raise Unsupported('statement call inside a loop / of a path')
+                ns, sig = self.lookup(e[1][0], 'bare')
+                pos = MUTOUT.get((ns, e[1][0])) if sig is not None else None
+                if not pos or len(sig[0]) != len(e[2]):
+                    raise Unsupported('statement call of ' + e[1][0])
+                places = []
+                for pi in pos:
+                    a = e[2][pi]
+                    if a[0] == 'nfield' and a[2] == 'limbs':
+                        a = a[1]
+                    if a[0] != 'var' or a[1] not in env or env[a[1]][1] != 'uint' or a[1] in places:
+                        raise Unsupported('`&mut` argument is not a distinct limb-array variable')
+                    places.append(a[1])
+                t, ty = self.ex(e, env)
+                if ty != (tuple('uint' for _ in places) if len(places) > 1 else 'uint'):
+                    raise Unsupported('statement call result ' + str(ty))
+                if len(places) == 1:
+                    self.bind(places[0], t, 'uint', env, lines)
+                else:
+                    self.pn += 1
+                    tmp = f'p{self.pn}'
+                    lines.append(f'let {tmp} := {t}')
+                    for idx, v in enumerate(places):
+                        self.bind(v, f'{tmp}{proj(idx, len(places))}', 'uint', env, lines)
             elif k == 'ifret':
                 # `if cond { return e; }` at the top level of a function: `if cond then e else <the rest>`
                 if declared is not None or getattr(self, 'rty', None) is None:
@@ -2498,6 +2575,8 @@ class Gen:
         body = self.take_asserts(body, env)
         if outs:
             body, self.guards = strip_panic_guards(body)
+        elif OPTS.get('panic_guards'):
+            body, self.guards = strip_panic_guards(body)
         pr = P(tokenize(body))
         stmts, final = pr.block()
         if pr.peek()[0] != 'eof':
@@ -2968,6 +3047,7 @@ def translate_file(path, ns, self_ty, want=None, private=False, ext=None, cut=No
                     raise Unsupported('no return type')
                 rty = tuple('uint' for _ in mutp) if len(mutp) > 1 else 'uint'
                 outs[name] = mutp
+                MUTOUT[(ns, name)] = [k for k, (n, t) in enumerate(ps) if n in mutp]
             elif mutp:
                 raise Unsupported('`&mut` parameter and a return value')
             else:
@@ -2996,6 +3076,12 @@ def translate_file(path, ns, self_ty, want=None, private=False, ext=None, cut=No
             if g.generic:
                 env[g.generic] = (g.generic, 'nat')
                 binders.append(f'({g.generic} : Nat)')
+            GENERIC2_FNS.discard((ns, name))
+            if OPTS.get('generic2') and re.search(r'\b' + OPTS['generic2'] + r'\b', params + ' ' + ret):
+                # a second const generic (`uint_mul_limbs<const LIMBS: usize, const RHS_LIMBS: usize>`): a second `Nat` argument
+                env[OPTS['generic2']] = (OPTS['generic2'], 'nat')
+                binders.append(f'({OPTS["generic2"]} : Nat)')
+                GENERIC2_FNS.add((ns, name))
             for (n, _), t in zip(plist[name], ptys):
                 ln = 'self_' if n == 'self' else n
                 env[n] = (ln, t)
@@ -3067,9 +3153,19 @@ FILES = [
         dict(key='limb_mul', rel=['src/limb/mul.rs'], ns='CB.Gen.MulRows.Limb', self_ty='Limb',
              desc='impl Limb: wrapping / saturating / wide multiplication', want=['saturating_mul', 'wrapping_mul', 'mul_wide'],
              use=['prim']),
+        dict(key='limb_sq', rel=['src/limb/add.rs', 'src/limb/shr.rs'], ns='CB.Gen.MulRows.LimbSq', self_ty='Limb',
+             desc='impl Limb: the two further methods schoolbook_squaring calls', want=['overflowing_add', 'shr'], use=['prim']),
         dict(key='uint_mul', rel='src/uint/mul.rs', ns='CB.Gen.MulRows', self_ty=None, private='any',
              desc='schoolbook multiplication over limb slices: nested `while` loops, `lo`/`hi` addressed by an index test',
-             want=['schoolbook_multiplication', 'schoolbook_squaring'], limb_more=['limb_mul']),
+             want=['schoolbook_multiplication', 'schoolbook_squaring'], limb_more=['limb_mul', 'limb_sq']),
+        dict(key='uint_mul_wrap', rel='src/uint/mul.rs', ns='CB.Gen.MulRows.Wrap', self_ty=None, generic='LIMBS', generic2='RHS_LIMBS',
+             free_generic=True, use=['uint_mul'],
+             desc='the const-generic wrappers: zeroed `Uint`s handed to the slice functions, the written-back `(lo, hi)` returned',
+             want=['uint_mul_limbs', 'uint_square_limbs']),
+        dict(key='kara_rows', rel='src/uint/mul/karatsuba.rs', ns='CB.Gen.MulRows.Karatsuba', self_ty=None, slices=True,
+             nonconst=True, panic_guards=True, private=True,
+             desc='adc_mul_limbs (a non-`const` fn): the schoolbook product ADDED to a limb slice, the carry returned',
+             want=['adc_mul_limbs']),
     ]),
     # the modular add / sub / neg layer (C07): mask helpers, `add_mod` .. `neg_mod_special`, the Montgomery-form forwarders
     ('Modular.lean', ['CB.Gen.Chains', None, 'set_option linter.unusedVariables false'], [
@@ -3163,6 +3259,8 @@ def main():
     reg = {}     # unit key -> (namespace, signatures of the functions translated NOW)
     STRUCTS.clear()
     MUTP.clear()
+    MUTOUT.clear()
+    GENERIC2_FNS.clear()
     for fname, imports, units in FILES:
         out_path = os.path.join(GEN, fname)
         last = read_last(out_path)
@@ -3198,6 +3296,7 @@ def main():
             ext['uint+'] = [reg[k] for k in u.get('more_uint', []) if k in reg]
             OPTS.clear()
             OPTS.update({k: u[k] for k in ('skip_asserts', 'free_generic', 'slices', 'nat_loops') if u.get(k)})
+            OPTS.update({k: u[k] for k in ('generic2', 'nonconst', 'panic_guards') if u.get(k)})
             ext['uint_more'] = [reg[k] for k in u.get('uint_more', []) if k in reg]
             ext.update(int=reg.get('int'))
             for opt in ('fuel', 'skip_mods', 'defer_lets'):
